@@ -5,6 +5,7 @@ import glob
 import json
 import os
 import re
+import sys
 
 VERIF = os.path.dirname(os.path.abspath(__file__))
 
@@ -157,10 +158,31 @@ def main():
         det = ('exit %s: ' % last.get('exit')) + ', '.join('`%s`' % m for m in mechs[:2]) if mechs else 'exit %s (not reported)' % last.get('exit')
         rows.append((mid, meta['breaks_property'], title.replace('|', '/'), ' '.join(os.path.basename(f) for f in files), det,
                      STRENGTHENED.get(mid, '')))
-    print('| change | what it does (files) | reported by the quick check as | added to the check before it reported it |')
-    print('|---|---|---|---|')
-    for mid, prop, title, files, det, note in rows:
-        print('| %s | %s (%s) | %s %s | %s |' % (mid, title, files, prop, det, note or '- (as first built)'))
+    out = ['| change | what it does (files) | reported by the quick check as | added to the check before it reported it |',
+           '|---|---|---|---|']
+
+    def order(r):
+        return (r[1], int(r[0].split('_m')[1]))
+    for mid, prop, title, files, det, note in sorted(rows, key=order):
+        out.append('| %s | %s (%s) | %s %s | %s |' % (mid, title, files, prop, det, note or '- (as first built)'))
+    missed = [r[0] for r in rows if 'not reported' in r[4]]
+    strengthened = [r[0] for r in rows if r[5] and not r[5].startswith('NOT REPORTED')]
+    summary = ('%d seeded changes are stored; the quick check of the property reports %d of them on the current machinery, '
+               '%d of these only after the addition named in the last column; not reported: %s.'
+               % (len(rows), len(rows) - len(missed), len(strengthened), ', '.join(missed) or 'none'))
+    text = summary + '\n\n' + '\n'.join(out) + '\n'
+    if '--into-design' in sys.argv:
+        path = os.path.join(VERIF, 'DESIGN.md')
+        d = open(path).read()
+        b, e = '<!-- SEEDED-TABLE-BEGIN -->', '<!-- SEEDED-TABLE-END -->'
+        if 'SEEDED_TABLE_PLACEHOLDER' in d:
+            d = d.replace('SEEDED_TABLE_PLACEHOLDER', b + '\n' + e)
+        i, j = d.index(b), d.index(e)
+        d = d[:i + len(b)] + '\n' + text + d[j:]
+        open(path, 'w').write(d)
+        print(summary)
+    else:
+        print(text)
 
 
 if __name__ == '__main__':
